@@ -1,10 +1,10 @@
 CONSTANTS Threads <- T3
-          Programs <- ProgQueue
+          Programs <- ProgDeleg
           NotifyUnderLock = TRUE
-          Delegates <- NoD
+          Delegates <- D3
           CursorBeforeWake = FALSE
           SpuriousWakeups = FALSE
 SPECIFICATION FairSpec
-INVARIANTS NoTouchAfterDestroy LockInv NoSpuriousReturn QueueInv QueueWellFormed PerProducerOrder
+INVARIANTS NoDoubleWake NoTouchAfterDestroy LockInv NoSpuriousReturn QueueInv QueueWellFormed PerProducerOrder
 PROPERTIES NoLostWakeup WakeOrderOK
 CHECK_DEADLOCK FALSE
